@@ -20,6 +20,10 @@ ObjVals == {
    Obj(<<"ls", "s">>, <<Arr(<<St(<<"a">>)>>), St(<<"b">>)>>),              \* an array with exactly one element
    Obj(<<"ls">>, <<Arr(<<St(<<"a">>), St(<<"b">>)>>)>>)
 }
+(* bodies using the properties that have no type of their own (JSON and urlencoded bodies) *)
+UntypedVals == {
+   Obj(<<"n", "u1">>, <<N(4), N(8)>>), Obj(<<"n", "u1">>, <<N(4), St(<<"x">>)>>),
+   Obj(<<"n", "u3">>, <<N(4), St(<<"a">>)>>), Obj(<<"n", "u3">>, <<N(4), St(<<"z">>)>>) }
 TextVals == {St(<<"a">>), St(<<"a", "b", "c">>)}
 
 VARIABLE case
@@ -35,12 +39,15 @@ Init ==
    \/ \E req \in BOOLEAN :
         case = [part |-> "select", decl |-> <<Json>>, hdr |-> Json, hdrText |-> Render(Json), required |-> req,
                 bodyKey |-> Json, empty |-> TRUE, declText |-> <<Render(Json)>>]
-   \/ \E fam \in {"json", "form", "multipart"}, sc \in {"S1", "S2"}, v \in ObjVals, xro \in BOOLEAN, enc \in {"default", "lNonExplode"},
-         cl \in {"known", "unknown"} :       \* unknown: a body whose length net/http does not know (ContentLength 0, e.g. a pipe)
+   \/ \E fam \in {"json", "form", "multipart"}, sc \in {"S1", "S2", "S3"}, v \in ObjVals \cup UntypedVals, xro \in BOOLEAN, enc \in {"default", "lNonExplode"},
+         cl \in {"known", "unknown"}, dflt \in BOOLEAN :       \* unknown: a body whose length net/http does not know (ContentLength 0, e.g. a pipe)
         /\ (enc = "lNonExplode" => fam = "form")
-        /\ case = [part |-> "decode", family |-> fam, schema |-> sc, v |-> v, excludeRO |-> xro, enc |-> enc, clen |-> cl]
+        /\ (v \in UntypedVals => fam \in {"json", "form"})
+        /\ (dflt => (sc = "S3" /\ cl = "known"))          \* dflt: defaults are installed during validation (SkipSettingDefaults off)
+        /\ (sc = "S3" => enc = "default")
+        /\ case = [part |-> "decode", family |-> fam, schema |-> sc, v |-> v, excludeRO |-> xro, enc |-> enc, clen |-> cl, setDefaults |-> dflt]
    \/ \E v \in TextVals :
-        case = [part |-> "decode", family |-> "text", schema |-> "text", v |-> v, excludeRO |-> FALSE, enc |-> "default", clen |-> "known"]
+        case = [part |-> "decode", family |-> "text", schema |-> "text", v |-> v, excludeRO |-> FALSE, enc |-> "default", clen |-> "known", setDefaults |-> FALSE]
 Next == UNCHANGED case
 Spec == Init /\ [][Next]_case
 Emit == CSVWrite("%1$s", <<ToJson(case)>>, "cases.ndjson")
